@@ -78,6 +78,11 @@ def topologies():
         mk('loop_sibling_sub', [[['A'], ['B']]], {'A': 'ev', 'B': 'ev'}, [('A', 'B'), ('B', 'A', {'weak': True})], init={'A': 0}),
         mk('loop_sibling_sub2', [[['A'], ['B']]], {'A': 'ev', 'B': 'ev'}, [('A', 'B', {'weak': True}), ('B', 'A')], init={'A': 0}),
         mk('loop_deep', [[['A', 'B']]], {'A': 'ev', 'B': 'ev'}, [('A', 'B'), ('B', 'A', {'weak': True})], init={'A': 0}),
+        # two sibling groups, a weak loop in each, the first feeding the second (the second loop's sub-steps start at 0 again)
+        mk('loop_sib2', [['A', 'B'], ['C', 'D']], {'A': 'ev', 'B': 'ev', 'C': 'ev', 'D': 'ev'},
+           [('A', 'B'), ('B', 'A', {'weak': True}), ('B', 'C', {'i': 't2'}), ('C', 'D'), ('D', 'C', {'weak': True})], init={'A': 0}, tags=('four',)),
+        mk('loop_sib2p', [[['A', 'B'], ['C', 'D']]], {'A': 'ev', 'B': 'ev', 'C': 'ev', 'D': 'ev'},
+           [('A', 'B'), ('B', 'A', {'weak': True}), ('B', 'C', {'i': 't2'}), ('C', 'D'), ('D', 'C', {'weak': True})], init={'A': 0}, tags=('four',)),
         mk('loop_hy', [['A', 'B']], {'A': 'hy', 'B': 'hy'}, [('A', 'B'), ('B', 'A', {'weak': True})]),
         # a cycle closed by a weak and a time-shifted connection: one sub-step per time step, over several time steps
         mk('loop_ws', [['A', 'B']], {'A': 'ev', 'B': 'ev'}, [('A', 'B', {'weak': True}), ('B', 'A', {'k': 1})], init={'A': 0}, tags=('multi',)),
@@ -94,6 +99,10 @@ def jobs(tier):
         hy = t['name'] == 'loop_hy'
         K = (4 if q else 6)
         if hy:
+            K = 3 if q else 4
+        if 'four' in t.get('tags', ()):
+            if q and t['name'] != 'loop_sib2':
+                continue
             K = 3 if q else 4
         masks = list(T.sync_masks(t, 'extremes' if (q or len(t['types']) > 2) else 'all'))
         for sync in masks:
